@@ -95,6 +95,7 @@ type Summary struct {
 	Samples    []json.RawMessage `json:"samples"`
 	Nontrivial int               `json:"nontrivial"`
 	Infra      []string          `json:"infra,omitempty"`
+	RestartAt  int               `json:"restart_at,omitempty"` // the case after which this process gave up (a hang leaves a runaway goroutine behind)
 }
 
 func callsEq(a, b []CallRec) bool {
@@ -304,6 +305,7 @@ func runReplay(args []string) int {
 	sc := bufio.NewScanner(rd)
 	sc.Buffer(make([]byte, 1<<20), 1<<28)
 	idx := -1
+	restart := false
 	var pf *os.File
 	if progress != "" {
 		pf, _ = os.Create(progress)
@@ -322,11 +324,28 @@ func runReplay(args []string) int {
 			pf.WriteAt([]byte(fmt.Sprintf("%-12d", idx)), 0)
 		}
 		r.sum.Cases++
-		if err := r.dispatch(line); err != nil {
+		err := func() (err error) {
+			defer func() {
+				if p := recover(); p != nil {
+					if _, ok := p.(restartSentinel); !ok {
+						panic(p)
+					}
+					r.sum.Stats["cases cut short after a hang"]++
+				}
+			}()
+			return r.dispatch(line)
+		}()
+		if err != nil {
 			r.sum.Infra = append(r.sum.Infra, err.Error())
 			if len(r.sum.Infra) > 20 {
 				break
 			}
+		}
+		if hangSeen.Load() {
+			// the execution that hung keeps running in this process and cannot be stopped: hand over to a fresh one
+			r.sum.RestartAt = idx
+			restart = true
+			break
 		}
 	}
 	sf, err := os.Create(sumPath)
@@ -339,6 +358,9 @@ func runReplay(args []string) int {
 	enc.Encode(r.sum)
 	if len(r.sum.Infra) > 0 {
 		return 2
+	}
+	if restart {
+		return 4
 	}
 	return 0
 }
@@ -442,6 +464,12 @@ func (r *replayer) dispatch(line []byte) error {
 		if stride <= 1 || r.ocSeen%stride == 1 {
 			r.raceCase(c)
 		}
+	case "C17M":
+		var c OpTableCase
+		if err := json.Unmarshal(line, &c); err != nil {
+			return err
+		}
+		r.opTableCase(c)
 	case "C04P":
 		var c PipeCase
 		if err := json.Unmarshal(line, &c); err != nil {
